@@ -167,38 +167,76 @@ def prange(kind):
     return (int(m.group(1)), int(m.group(2)))
 
 
+# ---- native replay of a generated harness (no Kani playback: its unsliced formula needs > 46 GB) ----
+def concretise(text, fill):
+    """the radio / set-up text of an operation without kani::any(): concrete mocks, config bits from `fill`"""
+    t = text.replace("MockSpi::new()", "MockSpi::concrete(%d)" % fill).replace("RegSpi::new()", "RegSpi::concrete(%d)" % fill)
+    t = re.sub(r"\bradio_(1262|1261)\(\)", lambda m: "radio_%s_c(%d)" % (m.group(1), fill), t)
+    t = re.sub(r"\bradio_wl\((true|false)\)", lambda m: "radio_wl_c(%s, %d)" % (m.group(1), fill), t)
+    bits = iter([(fill >> k) & 1 for k in range(8)] * 4)
+    t = re.sub(r"kani::any\(\)", lambda m: "true" if next(bits) else "false", t)
+    return t
+
+
+def head(hid, o, replay):
+    """opening lines of the proof harness or of replay test number k with the given parameter values"""
+    L = []
+    if replay is None:
+        L.append("#[kani::proof]")
+        for a in o.get("rust_attrs", []):
+            L.append(a)
+        L.append("#[kani::unwind(26)]\nfn %s() {" % hid)
+        if o.get("rust_attrs"):
+            L.append("    uf_reset();")
+    else:
+        L.append("#[test]\nfn kani_concrete_playback_%s_%d() {" % (hid, replay["k"]))
+        if o.get("rust_attrs"):
+            L.append("    uf_reset();")
+    for n, k in o["params"]:
+        lo, hi = prange(k)
+        if replay is None:
+            L.append("    let %s: u32 = kani::any();" % n)
+            if (lo, hi) != (0, 0xFFFFFFFF):
+                L.append("    kani::assume(%s%s <= %du32);" % (("%s >= %du32 && " % (n, lo)) if lo else "", n, hi))
+        else:
+            L.append("    let %s: u32 = %du32;" % (n, replay["values"].get(n, lo)))
+    if o.get("payload"):
+        if replay is None:
+            L.append("    let pl: [u8; 255] = kani::any();")
+        else:
+            L.append("    let mut pl = [0u8; 255];\n    let mut i = 0;\n    while i < 255 { pl[i] = (i as u8).wrapping_mul(37) ^ %du8; i += 1; }" % replay["fill"])
+    return L
+
+
+def assume_line(cond, replay):
+    return "    kani::assume(%s);" % cond if replay is None else "    if !(%s) { return; }" % cond
+
+
 # ---- Rust (Kani) side -------------------------------------------------------------------------
-def gen_rust_op(chip, o, pre=""):
+def gen_rust_op(chip, o, replay=None):
     side = Side(o, "rust")
     e = Emit("rs", side)
     L = []
     hid = "c13_%s_%s" % (chip, o["id"])
-    L.append("//@h id=%s props=C13 tier=%s build=phy cost=%d timeout=900" % (hid, o.get("tier", "quick"), o.get("cost", 30)))
-    dom = ", ".join("%s in %d..=%d" % (n, *prange(k)) for n, k in o["params"]) or "no parameters"
-    L.append("//@bounds %s: %s%s; the chip's answers to reads are arbitrary bytes" % (o["id"], dom, ("; assuming " + " and ".join(o["assume"])) if o["assume"] else ""))
-    L.append("//@encodes %s" % o.get("encodes", o["rust"].split("(")[0]))
-    if o["note"]:
-        L.append("//@assumes %s" % o["note"])
-    L.append("#[kani::proof]")
-    for a in o.get("rust_attrs", []):
-        L.append(a)
-    L.append("#[kani::unwind(26)]\nfn %s() {" % hid)
-    if o.get("rust_attrs"):
-        L.append("    uf_reset();")
-    for n, k in o["params"]:
-        lo, hi = prange(k)
-        L.append("    let %s: u32 = kani::any();" % n)
-        if (lo, hi) != (0, 0xFFFFFFFF):
-            L.append("    kani::assume(%s%s <= %du32);" % (("%s >= %du32 && " % (n, lo)) if lo else "", n, hi))
-    if o.get("payload"):
-        L.append("    let pl: [u8; 255] = kani::any();")
+    if replay is None:
+        L.append("//@h id=%s props=C13 tier=%s build=phy cost=%d timeout=900" % (hid, o.get("tier", "quick"), o.get("cost", 30)))
+        dom = ", ".join("%s in %d..=%d" % (n, *prange(k)) for n, k in o["params"]) or "no parameters"
+        L.append("//@bounds %s: %s%s; the chip's answers to reads are arbitrary bytes" % (o["id"], dom, ("; assuming " + " and ".join(o["assume"])) if o["assume"] else ""))
+        L.append("//@encodes %s" % o.get("encodes", o["rust"].split("(")[0]))
+        if o["note"]:
+            L.append("//@assumes %s" % o["note"])
+    L += head(hid, o, replay)
     for n, x in o["lets"]:
         L.append("    let %s: u32 = %s;" % (n, e.go(x)))
     for a in o["assume"]:
-        L.append("    kani::assume(%s);" % e.cond(ast.parse(a, mode="eval").body))
-    L.append("    let mut r = %s;" % (o["radio"] or DEFAULT_RADIO[chip]))
-    if o["rust_pre"]:
-        L += ["    " + s for s in o["rust_pre"].strip().splitlines()]
+        L.append(assume_line(e.cond(ast.parse(a, mode="eval").body), replay))
+    radio = o["radio"] or DEFAULT_RADIO[chip]
+    pre_lines = o["rust_pre"].strip().splitlines() if o["rust_pre"] else []
+    if replay is not None:
+        radio = concretise(radio, replay["fill"])
+        pre_lines = [concretise(x, replay["fill"]).replace("kani::assume(", "assert!(") for x in pre_lines]
+    L.append("    let mut r = %s;" % radio)
+    L += ["    " + x for x in pre_lines]
     L.append("    let res = block_on(%s);" % o["rust"])
     L.append("    kani::assert(res.is_ok(), \"C13: %s: driver call failed on a fault-free bus\");" % o["id"])
     L.append("    kani::assert(spi().n == %d, \"C13: %s: number of SPI transactions differs from the reference driver\");" % (side.n, o["id"]))
@@ -245,38 +283,37 @@ def reg_entries(o, side):
     return exp
 
 
-def gen_rust_regop(chip, o):
+def gen_rust_regop(chip, o, replay=None):
     """register-file operation (SX127x): final register file == specification, everything else unchanged"""
     e = Emit("rs", None)
     L = []
     hid = "c13_%s_%s" % (chip, o["id"])
-    L.append("//@h id=%s props=C13 tier=%s build=phy cost=%d timeout=1800" % (hid, o.get("tier", "quick"), o.get("cost", 120)))
-    dom = ", ".join("%s in %d..=%d" % (n, *prange(k)) for n, k in o["params"]) or "no parameters"
-    L.append("//@bounds %s on the register-file chip model: %s%s; arbitrary prior contents of all 127 registers%s; every register is compared after the operation (the listed ones against the specification, all others must be unchanged)"
-             % (o["id"], dom, ("; assuming " + " and ".join(o["assume"])) if o["assume"] else "", ("; prior state: " + " and ".join(o["assume_init"])) if o.get("assume_init") else ""))
-    L.append("//@encodes %s" % o.get("encodes", o["rust"].split("(")[0]))
-    if o["note"]:
-        L.append("//@assumes %s" % o["note"])
-    L.append("#[kani::proof]")
-    for a in o.get("rust_attrs", []):
-        L.append(a)
-    L.append("#[kani::unwind(26)]\nfn %s() {" % hid)
-    if o.get("rust_attrs"):
-        L.append("    uf_reset();")
-    for n, k in o["params"]:
-        lo, hi = prange(k)
-        L.append("    let %s: u32 = kani::any();" % n)
-        if (lo, hi) != (0, 0xFFFFFFFF):
-            L.append("    kani::assume(%s%s <= %du32);" % (("%s >= %du32 && " % (n, lo)) if lo else "", n, hi))
-    if o.get("payload"):
-        L.append("    let pl: [u8; 255] = kani::any();")
-    L.append("    let mut r = %s;" % (o["radio"] or DEFAULT_RADIO[chip]))
+    if replay is None:
+        L.append("//@h id=%s props=C13 tier=%s build=phy cost=%d timeout=1800" % (hid, o.get("tier", "quick"), o.get("cost", 120)))
+        dom = ", ".join("%s in %d..=%d" % (n, *prange(k)) for n, k in o["params"]) or "no parameters"
+        L.append("//@bounds %s on the register-file chip model: %s%s; arbitrary prior contents of all 127 registers%s; every register is compared after the operation (the listed ones against the specification, all others must be unchanged)"
+                 % (o["id"], dom, ("; assuming " + " and ".join(o["assume"])) if o["assume"] else "", ("; prior state: " + " and ".join(o["assume_init"])) if o.get("assume_init") else ""))
+        L.append("//@encodes %s" % o.get("encodes", o["rust"].split("(")[0]))
+        if o["note"]:
+            L.append("//@assumes %s" % o["note"])
+    L += head(hid, o, replay)
+    radio = o["radio"] or DEFAULT_RADIO[chip]
+    pre_lines = o["rust_pre"].strip().splitlines() if o["rust_pre"] else []
+    if replay is not None:
+        radio = concretise(radio, replay["fill"])
+        pre_lines = [concretise(x, replay["fill"]) for x in pre_lines]
+    L.append("    let mut r = %s;" % radio)
+    if replay is not None:
+        # make the prior-state assumptions true on the concrete chip where they have the form (r(a) & m) == v
+        for a in o.get("assume_init", []):
+            m = re.fullmatch(r"\(r\((\w+)\) & (\w+)\) == (\w+)", a.strip())
+            if m:
+                L.append("    RegSpi::poke(%s, %s, %s);" % (int(m.group(1), 0), int(m.group(2), 0), int(m.group(3), 0)))
     for n, x in o["lets"]:
         L.append("    let %s: u32 = %s;" % (n, e.go(x)))
     for a in o["assume"] + o.get("assume_init", []):
-        L.append("    kani::assume(%s);" % e.cond(ast.parse(a, mode="eval").body))
-    if o["rust_pre"]:
-        L += ["    " + x for x in o["rust_pre"].strip().splitlines()]
+        L.append(assume_line(e.cond(ast.parse(a, mode="eval").body), replay))
+    L += ["    " + x for x in pre_lines]
     for k, call in enumerate(o["rust"] if isinstance(o["rust"], list) else [o["rust"]]):
         L.append("    kani::assert(block_on(%s).is_ok(), \"C13: %s: driver call failed on a fault-free bus\");" % (call, o["id"]))
     L.append("    kani::assert(!rf().bad, \"C13: %s: malformed register access\");" % o["id"])
@@ -789,6 +826,28 @@ def generate(chips=("sx126x",)):
             open(path, "w").write(text)
         out.append(path)
     return out
+
+
+FILLS = (0x00, 0xFF, 0x5A, 0xA5, 0x0C, 0xF3)
+
+
+def replay_tests(harness_id, values):
+    """native replay tests (source text) for the generated harness `harness_id` with the parameter
+    values of the solver's counterexample and several concrete chip contents; [] if unknown"""
+    for chip in CHIPS:
+        for o in ops_for(chip):
+            if "c13_%s_%s" % (chip, o["id"]) == harness_id:
+                gen = gen_rust_regop if o.get("kind") == "regs" else gen_rust_op
+                return [gen(chip, o, replay=dict(k=k, values=values, fill=fill)) for k, fill in enumerate(FILLS)]
+    return []
+
+
+def param_names(harness_id):
+    for chip in CHIPS:
+        for o in ops_for(chip):
+            if "c13_%s_%s" % (chip, o["id"]) == harness_id:
+                return [n for n, _ in o["params"]]
+    return []
 
 
 def c_harness(chip):
